@@ -1597,6 +1597,11 @@ def connect_content(tr):
     if has_will != want_will:
         return "connect: the caller %s a will (topic and payload given: %s), the CONNECT written has Will Flag %d" % (
             "asked for" if want_will else "did not ask for", want_will, int(has_will))
+    if want_will:
+        want_wq, want_wr = int(d.get("wq", "0")), int(d.get("wr", "0"))
+        if ((flags >> 3) & 3, (flags >> 5) & 1) != (want_wq, want_wr):
+            return "connect: the caller asked for a will with QoS %d and retain %d; the Connect Flags written (0x%02x) say Will QoS %d, Will Retain %d" % (
+                want_wq, want_wr, flags, (flags >> 3) & 3, (flags >> 5) & 1)
     if want_will and wpay != M.unhex(d["wp"]):
         return "connect: the will payload written is %s, the caller gave %s" % (M.hx(wpay), d["wp"])
     if dp[1] != want_up:
